@@ -1,11 +1,32 @@
 /-
-  JV.Model.Compare — the integer arms of `basic_json::compare` (basic_json.hpp, int64/uint64 × int64/uint64), with the
-  C++ conversions written out: `static_cast<uint64_t>(x)` of a signed value is reduction mod 2^64.
+  JV.Model.Compare — `basic_json::compare` (include/jsoncons/basic_json.hpp, `int compare(const basic_json& rhs) const noexcept`)
+  and the six relational operators built on it (`a == b` is `a.compare(b) == 0`, `a < b` is `a.compare(b) < 0`, …), bug-faithfully.
+
+  Part 1 (kept from the first version): the four integer arms on their own (`Stored`, `compareStored`), with the C++ unsigned
+  conversions written out. Part 2: the whole kind × kind switch on `CVal`.
+
+  What `CVal` covers: every storage kind `compare` switches on — null, boolean, int64, uint64, empty_object (`json()`), float64,
+  half_float, short_str / long_str (one constructor: the storage kind is a function of the length, `short_string_storage::max_length`
+  = 13 for `char`), byte_str, array, object (sorted `json` objects: a vector of key/value pairs in key order).
+  NOT in the model's domain (stated, not hidden):
+    * strings carrying a number tag (bigint / bigdec / bigfloat / float128): `compare` sends those through `as_double()`, i.e.
+      decimal-text-to-double conversion (recorded finding D7); every other tag is ignored by `compare`, so `CVal` carries no tag;
+    * `json_ref` / `const_json_ref` storage (a reference is compared as the value it refers to);
+    * the identity shortcut `this == &rhs → 0` (the model compares values, i.e. two distinct objects).
+  The result is the SIGN (-1, 0, 1) of the C++ result: the C++ returns kind-index differences and `string_view::compare` values whose
+  magnitude is unspecified; every operator only looks at the sign.
+
+  Doubles are bit patterns (Nat < 2^64). `r = a - b; r == 0 ? 0 : (r < 0.0 ? -1 : 1)` is modelled by `subSign`: for finite IEEE-754
+  doubles under round-to-nearest with gradual underflow the difference is zero iff the operands are equal (±0 alike), otherwise it has
+  the sign of the exact difference (overflow gives ±inf of that sign); a NaN operand, or inf - inf of equal sign, gives NaN, and NaN
+  falls through both tests to `1`. `static_cast<double>(int64/uint64)` is round-to-nearest-even, written out on the bits (`natToDouble`).
 -/
 import JV.Basic.JVal
 namespace JV
 namespace Model
 namespace Compare
+
+/-! ### Part 1: the integer arms alone -/
 
 /-- a stored integer: `json_storage_kind::int64` or `::uint64` -/
 inductive Stored where
@@ -24,7 +45,7 @@ def Stored.WF : Stored → Prop
   | .u64 v => v < 2 ^ 64
 
 /-- `compare(lhs, rhs)` for the four integer storage combinations -/
-def compare : Stored → Stored → Int
+def compareStored : Stored → Stored → Int
   | .i64 a, .i64 b => if a = b then 0 else if a < b then -1 else 1
   | .i64 a, .u64 b =>
     if a < 0 then -1
@@ -35,6 +56,195 @@ def compare : Stored → Stored → Int
     else if a = toU64 b then 0
     else if a < toU64 b then -1 else 1
   | .u64 a, .u64 b => if a = b then 0 else if a < b then -1 else 1
+
+/-! ### Part 2: the whole switch -/
+
+/-- a `json` value as far as `compare` can tell values apart -/
+inductive CVal where
+  | null
+  | bool (b : Bool)
+  | i64 (v : Int)                     -- -2^63 ≤ v < 2^63
+  | u64 (v : Nat)                     -- v < 2^64
+  | emptyObj                          -- `json()`: json_storage_kind::empty_object
+  | dbl (bits : Nat)                  -- IEEE-754 binary64 bit pattern, < 2^64
+  | half (bits : Nat)                 -- IEEE-754 binary16 bit pattern, < 2^16
+  | str (s : Bytes)                   -- short_str if s.length ≤ 13, long_str otherwise; no number tag
+  | bstr (s : Bytes)
+  | arr (xs : List CVal)
+  | obj (ms : List (Bytes × CVal))    -- json_storage_kind::object, members in key order
+  deriving Repr, Inhabited
+
+/-- `short_string_storage::max_length` for `char`: (2*8 - 2)/1 - 1 -/
+abbrev shortMax : Nat := 13
+
+/-- `static_cast<int>(storage_kind())` -/
+def kind : CVal → Int
+  | .null => 0
+  | .bool _ => 1
+  | .i64 _ => 2
+  | .u64 _ => 3
+  | .emptyObj => 4
+  | .dbl _ => 5
+  | .half _ => 6
+  | .str s => if s.length ≤ shortMax then 7 else 15
+  | .bstr _ => 12
+  | .obj _ => 13
+  | .arr _ => 14
+
+def sgn (i : Int) : Int := if i = 0 then 0 else if i < 0 then -1 else 1
+
+/-- `string_view::compare` / `byte_string_view::compare`: memcmp on the common prefix (unsigned bytes), then the lengths -/
+def bytesCmp : Bytes → Bytes → Int
+  | [], [] => 0
+  | [], _ :: _ => -1
+  | _ :: _, [] => 1
+  | a :: as, b :: bs => if a < b then -1 else if b < a then 1 else bytesCmp as bs
+
+/-! #### binary64 on the bits -/
+
+def dSign (b : Nat) : Nat := b / 2 ^ 63 % 2
+def dExp (b : Nat) : Nat := b / 2 ^ 52 % 2048
+def dMant (b : Nat) : Nat := b % 2 ^ 52
+def isNaN (b : Nat) : Bool := dExp b == 2047 && dMant b != 0
+def isInf (b : Nat) : Bool := dExp b == 2047 && dMant b == 0
+/-- exponent and mantissa fields together: monotone in the magnitude of a non-NaN double -/
+def dMag (b : Nat) : Nat := b % 2 ^ 63
+/-- an integer that orders the non-NaN doubles as their values do (-0.0 and +0.0 both 0) -/
+def dKey (b : Nat) : Int := if dSign b = 0 then (dMag b : Int) else -(dMag b : Int)
+
+/-- `double r = a - b; return r == 0 ? 0 : (r < 0.0 ? -1 : 1);` -/
+def subSign (a b : Nat) : Int :=
+  if isNaN a || isNaN b then 1                               -- r is NaN: `r == 0` and `r < 0.0` are both false
+  else if isInf a && isInf b && dSign a == dSign b then 1    -- inf - inf of equal sign is NaN
+  else if dKey a = dKey b then 0
+  else if dKey a < dKey b then -1 else 1
+
+/-- largest k ≤ start with 2^k ≤ n (0 if none) -/
+def ilog2From : Nat → Nat → Nat
+  | 0, _ => 0
+  | k + 1, n => if 2 ^ (k + 1) ≤ n then k + 1 else ilog2From k n
+
+def ilog2 (n : Nat) : Nat := ilog2From 63 n
+
+/-- `static_cast<double>(n)` for 0 ≤ n < 2^64, round to nearest, ties to even; the result's bit pattern -/
+def natToDouble (n : Nat) : Nat :=
+  if n = 0 then 0
+  else
+    let k := ilog2 n
+    if k ≤ 52 then (1023 + k) * 2 ^ 52 + (n - 2 ^ k) * 2 ^ (52 - k)          -- exact
+    else
+      let e := k - 52                                                        -- bits that do not fit
+      let q := n / 2 ^ e
+      let r := n % 2 ^ e
+      let h := 2 ^ (e - 1)
+      let q1 := if h < r ∨ (r = h ∧ q % 2 = 1) then q + 1 else q
+      (1023 + k) * 2 ^ 52 + (q1 - 2 ^ 52)         -- q1 = 2^53 carries into the exponent field, as the hardware does
+
+/-- `static_cast<double>(int64_t)` -/
+def i64ToDouble (v : Int) : Nat := if v < 0 then 2 ^ 63 + natToDouble (-v).toNat else natToDouble v.toNat
+
+/-- `static_cast<double>(uint64_t)` -/
+def u64ToDouble (v : Nat) : Nat := natToDouble v
+
+/-- `binary::decode_half`: the binary16 value as a binary64 (always exact) -/
+def halfToDouble (h : Nat) : Nat :=
+  let s := h / 2 ^ 15 % 2
+  let e := h / 2 ^ 10 % 32
+  let m := h % 2 ^ 10
+  let mag :=
+    if e = 31 then (if m = 0 then 2047 * 2 ^ 52 else 2047 * 2 ^ 52 + 2 ^ 51)   -- infinity / `std::nan("")`
+    else if e = 0 then
+      (if m = 0 then 0
+       else let k := ilog2 m; (1023 + k - 24) * 2 ^ 52 + (m - 2 ^ k) * 2 ^ (52 - k))   -- ldexp(mant, -24)
+    else (1023 + e - 15) * 2 ^ 52 + m * 2 ^ 42                                  -- ldexp(mant + 1024, exp - 25)
+  s * 2 ^ 63 + mag
+
+/-- the int64 × uint64 arm -/
+def cmpIU (a : Int) (b : Nat) : Int :=
+  if a < 0 then -1
+  else if toU64 a = b then 0
+  else if toU64 a < b then -1 else 1
+
+/-- the uint64 × int64 arm -/
+def cmpUI (a : Nat) (b : Int) : Int :=
+  if b < 0 then 1
+  else if a = toU64 b then 0
+  else if a < toU64 b then -1 else 1
+
+def cmpII (a b : Int) : Int := if a = b then 0 else if a < b then -1 else 1
+def cmpUU (a b : Nat) : Int := if a = b then 0 else if a < b then -1 else 1
+
+mutual
+  /-- sign of `lhs.compare(rhs)`; arms in the order of the C++ switch -/
+  def compare : CVal → CVal → Int
+    | .null, b => sgn (0 - kind b)
+    | .emptyObj, .emptyObj => 0
+    | .emptyObj, .obj ms => if ms.isEmpty then 0 else -1
+    | .emptyObj, b => sgn (4 - kind b)
+    | .bool x, .bool y => sgn ((if x then 1 else 0) - (if y then 1 else 0))
+    | .bool _, b => sgn (1 - kind b)
+    | .i64 x, .i64 y => cmpII x y
+    | .i64 x, .u64 y => cmpIU x y
+    | .i64 x, .dbl y => subSign (i64ToDouble x) y
+    | .i64 _, b => sgn (2 - kind b)
+    | .u64 x, .i64 y => cmpUI x y
+    | .u64 x, .u64 y => cmpUU x y
+    | .u64 x, .dbl y => subSign (u64ToDouble x) y
+    | .u64 _, b => sgn (3 - kind b)
+    | .half x, .half y => subSign (halfToDouble x) (halfToDouble y)
+    | .half _, b => sgn (6 - kind b)
+    | .dbl x, .i64 y => subSign x (i64ToDouble y)
+    | .dbl x, .u64 y => subSign x (u64ToDouble y)
+    | .dbl x, .dbl y => subSign x y
+    | .dbl _, b => sgn (5 - kind b)
+    | .str x, .str y => bytesCmp x y
+    | .str x, b => sgn (kind (.str x) - kind b)
+    | .bstr x, .bstr y => bytesCmp x y
+    | .bstr _, b => sgn (12 - kind b)
+    | .arr xs, .arr ys => if arrEq xs ys then 0 else if arrLt xs ys then -1 else 1
+    | .arr _, b => sgn (14 - kind b)
+    | .obj ms, .emptyObj => if ms.isEmpty then 0 else 1
+    | .obj ms, .obj ns => if objEq ms ns then 0 else if objLt ms ns then -1 else 1
+    | .obj _, b => sgn (13 - kind b)
+  termination_by a b => sizeOf a + sizeOf b
+  /-- `std::vector<json>::operator==`: equal sizes and `std::equal` with `json::operator==` -/
+  def arrEq : List CVal → List CVal → Bool
+    | [], [] => true
+    | x :: xs, y :: ys => compare x y == 0 && arrEq xs ys
+    | _, _ => false
+  termination_by a b => sizeOf a + sizeOf b
+  /-- `std::vector<json>::operator<`: `std::lexicographical_compare` with `json::operator<` -/
+  def arrLt : List CVal → List CVal → Bool
+    | [], [] => false
+    | [], _ :: _ => true
+    | _ :: _, [] => false
+    | x :: xs, y :: ys => if compare x y < 0 then true else if compare y x < 0 then false else arrLt xs ys
+  termination_by a b => sizeOf a + sizeOf b
+  /-- `std::vector<key_value>::operator==` with `key_value::operator==` (`key == key && value == value`) -/
+  def objEq : List (Bytes × CVal) → List (Bytes × CVal) → Bool
+    | [], [] => true
+    | (k, x) :: ms, (l, y) :: ns => k == l && compare x y == 0 && objEq ms ns
+    | _, _ => false
+  termination_by a b => sizeOf a + sizeOf b
+  /-- `std::lexicographical_compare` with `key_value::operator<` (`key < key || (key == key && value < value)`) -/
+  def objLt : List (Bytes × CVal) → List (Bytes × CVal) → Bool
+    | [], [] => false
+    | [], _ :: _ => true
+    | _ :: _, [] => false
+    | (k, x) :: ms, (l, y) :: ns =>
+      if keyLt k l || (k == l && compare x y < 0) then true
+      else if keyLt l k || (l == k && compare y x < 0) then false
+      else objLt ms ns
+  termination_by a b => sizeOf a + sizeOf b
+end
+
+/-- the six operators -/
+def opEq (a b : CVal) : Bool := compare a b == 0
+def opNe (a b : CVal) : Bool := compare a b != 0
+def opLt (a b : CVal) : Bool := compare a b < 0
+def opLe (a b : CVal) : Bool := compare a b ≤ 0
+def opGt (a b : CVal) : Bool := compare a b > 0
+def opGe (a b : CVal) : Bool := compare a b ≥ 0
 
 end Compare
 end Model
